@@ -1,18 +1,24 @@
 import Comdex.Base.Line
 import Comdex.Model.Feed
-/-! Driver for the feed model (C17): x/bandoracle + x/market begin-blockers around the per-asset windows.
+/-! Driver for the feed model (C17): x/bandoracle + x/market begin-blockers around the per-asset windows, the
+governance (re)configuration of the window parameters, asset-list changes, genesis windows, and the consumers.
 
 Lines (tab separated):
-  feed.begin     N acc
-  feed.asset     id required                      (in asset-id order)
-  feed.configure height                           AddFetchPriceRecords: feed configured, every window deleted
-  feed.ack       id                               acknowledgment of a price request (OnAcknowledgementPacket)
-  feed.resp      id rates                         oracle response (OnRecvPacket)
-  feed.band      height <band>                    real bandoracle.BeginBlocker, then the real band state
-  feed.market    height <outcome> <band> <books>  real market.BeginBlocker; outcome ∈ ok panic
-  feed.val       id <outcome>                     real CalcAssetPrice; outcome ∈ ok err
-band  := chk=..;tmp=..;last=..;dh=..;db=..;val=..
-books := id@vals=..;idx=..;twa=..;act=..;disc=..|…   (asset-id order, only assets with a record)
+  feed.begin     N acc                              new sequence; N acc = the stored parameters (0 0 = none)
+  feed.asset     id required                        (in asset-id order)
+  feed.genesis   flag <books>                       bandoracle / market InitGenesis: check flag, stored windows of any shape
+  feed.configure height N acc script <band> <books> the REAL FetchPriceProposal handler ran; then the real band state / ALL stored windows
+  feed.assetchange required <band> <assets>         an asset was added / updated with that oracle flag; then the band state and the new asset list
+  feed.noise     kind <band> stored <books>         a malformed / foreign packet or proposal through the real handlers: nothing may move
+  feed.ack       id                                 acknowledgment of a price request (OnAcknowledgementPacket)
+  feed.resp      id rates                           oracle response (OnRecvPacket)
+  feed.band      height <band>                      real bandoracle.BeginBlocker, then the real band state
+  feed.market    height <outcome> <band> <books>    real market.BeginBlocker; outcome ∈ ok panic
+  feed.val       id <outcome>                       real CalcAssetPrice; outcome ∈ ok err
+  feed.reader    name id listed <outcome>           a real consumer of the price of asset id; outcome ∈ ok err panic
+band   := chk=..;tmp=..;last=..;dh=..;db=..;val=..
+books  := id@vals=..;idx=..;twa=..;act=..;disc=..|…   (only assets with a record)
+assets := id:required,id:required,…
 -/
 -- DRIVER: prefix=feed ns=Comdex.Drv.Feed
 namespace Comdex.Drv.Feed
@@ -24,6 +30,10 @@ structure St where
   b : Band := {}
   bk : Books := []
   assets : List (Nat × Bool) := []
+  -- ghosts for the monitors, all restarted by a (re)configuration:
+  clean : Bool := false                 -- a proposal has passed in this sequence
+  ghost : List (Nat × Spec) := []       -- per asset: the sliding-window SPECIFICATION run on the samples since the last proposal
+  fresh : List (Nat × Nat) := []        -- per asset: positive samples received since the last proposal
 
 def init : St := {}
 
@@ -44,6 +54,13 @@ def parseBooks (s : String) : Option Books :=
   (s.splitOn "|").mapM fun e =>
     match e.splitOn "@" with
     | [id, r] => do pure ((← parseNat? id), (← parseRec r))
+    | _ => none
+
+def parseAssets (s : String) : Option (List (Nat × Bool)) :=
+  if s = "" then some [] else
+  (s.splitOn ",").mapM fun e =>
+    match e.splitOn ":" with
+    | [id, r] => do pure ((← parseNat? id), (← parseBool? r))
     | _ => none
 
 def insertB (x : Nat × Rec) : Books → Books
@@ -68,10 +85,22 @@ def parseBand (b : Band) (s : String) : Option Band :=
 def showBand (b : Band) : String :=
   s!"chk={b.checkFlag};tmp={b.tempId};last={b.lastId};dh={b.discardHeight};db={b.discardBool};val={b.validation}"
 
+def ghostGet (g : List (Nat × Spec)) (id : Nat) : Spec := ((g.find? (fun x => x.1 = id)).map (·.2)).getD Spec.init
+def ghostPut (g : List (Nat × Spec)) (id : Nat) (s : Spec) : List (Nat × Spec) := (id, s) :: g.filter (fun x => x.1 ≠ id)
+def freshGet (g : List (Nat × Nat)) (id : Nat) : Nat := ((g.find? (fun x => x.1 = id)).map (·.2)).getD 0
+def freshPut (g : List (Nat × Nat)) (id : Nat) (n : Nat) : List (Nat × Nat) := (id, n) :: g.filter (fun x => x.1 ≠ id)
+
+def countPosOps (ops : List Op) : Nat := (ops.filter fun o => match o with | .sample r _ => r > 0 | _ => false).length
+
+/-- every asset id a monitor has to look at: the listed assets and every id with a stored window -/
+def allIds (st : St) (bk : Books) : List Nat :=
+  (st.assets.map (·.1)) ++ (bk.map (·.1)).filter (fun i => !(st.assets.any (fun a => a.1 = i)))
+
 /-- monitors of the market begin-blocker, evaluated on the REAL states before and after -/
 def marketMonitors (st : St) (height : Int) (before : Band) (bkBefore bkAfter : Books) : List String :=
-  -- every stored window is well-formed
-  let m1 := bkAfter.filterMap fun x => if decide (Wf st.N x.2) then none else some s!"wf\tasset {x.1}"
+  -- once configured, every stored window is well-formed for the window size IN FORCE
+  let m1 := if before.lastBlock = 0 then [] else
+    bkAfter.filterMap fun x => if decide (Wf st.N x.2) then none else some s!"wf\tasset {x.1} not well-formed for N={st.N}"
   -- unvalidated feed: every listed asset is refused
   let m2 := if before.validation then [] else
     st.assets.filterMap fun a => match valuation (bkAfter.get a.1) with
@@ -82,8 +111,7 @@ def marketMonitors (st : St) (height : Int) (before : Band) (bkBefore bkAfter : 
       let start := (afterDiscard before bkBefore).2
       match before.result before.lastId with
       | some (r0 :: rs) =>
-        let ids := (st.assets.map (·.1)) ++ (bkAfter.map (·.1)).filter (fun i => !(st.assets.any (fun a => a.1 = i)))
-        ids.filterMap fun id =>
+        (allIds st bkAfter).filterMap fun id =>
           match fedWith st.assets (r0 :: rs) 0 id with
           | some rate =>
             match update (start.get id) rate st.N height st.acc with
@@ -93,6 +121,31 @@ def marketMonitors (st : St) (height : Int) (before : Band) (bkBefore bkAfter : 
       | _ => if sortB start = sortB bkAfter then [] else ["feed_by_rank\twindows changed without a result"]
     else if before.validation && sortB bkBefore != sortB bkAfter then ["feed_by_rank\twindows changed outside a sampling block"] else []
   m1 ++ m2 ++ m3
+
+/-- advance the ghosts over one market begin-blocker (ops derived from the REAL band state before the block) -/
+def ghostStep (st : St) (height : Int) (ids : List Nat) : List (Nat × Spec) × List (Nat × Nat) :=
+  ids.foldl (fun (g : List (Nat × Spec) × List (Nat × Nat)) id =>
+    let ops := marketOps st.b height st.assets id
+    (ghostPut g.1 id (ops.foldl (Spec.step st.N st.acc) (ghostGet g.1 id)),
+     freshPut g.2 id (freshGet g.2 id + countPosOps ops))) (st.ghost, st.fresh)
+
+/-- monitors that speak about the history since the last proposal (only once a proposal has passed) -/
+def historyMonitors (st : St) (ghost : List (Nat × Spec)) (fresh : List (Nat × Nat)) (bkAfter : Books) (ids : List Nat) : List String :=
+  if !st.clean then [] else
+  ids.foldr (fun id acc =>
+    let r := bkAfter.get id
+    let g := ghostGet ghost id
+    let m1 := if abs r = g then [] else
+      [s!"spec\tasset {id}: stored window {repr (abs r).window} act={(abs r).active} twa={(abs r).twa} is not the sliding window {repr g.window} act={g.active} twa={g.twa} of the samples since the last proposal (N={st.N})"]
+    let m2 := if (abs r).active && decide (freshGet fresh id < st.N) then
+      [s!"active_only_after_N\tasset {id} active after {freshGet fresh id} positive samples since the last proposal, N={st.N}"] else []
+    m1 ++ m2 ++ acc) []
+
+def readerOf (s : String) : Option Reader :=
+  match s with
+  | "calc" => some .calc | "latest" => some .latest | "vaultRatio" => some .vaultRatio | "rewardsOracle" => some .rewardsOracle
+  | "liqCalc" => some .liqCalc | "liqOracle" => some .liqOracle | "rewardsPrice" => some .rewardsPrice
+  | _ => none
 
 def handle (st : St) (seq : String) (f : List String) : St × List String :=
   match f with
@@ -104,10 +157,47 @@ def handle (st : St) (seq : String) (f : List String) : St × List String :=
     match parseNat? id, parseBool? rq with
     | some id, some rq => ({ st with assets := st.assets ++ [(id, rq)] }, [])
     | _, _ => (st, [s!"BAD\t{seq}\tasset"])
-  | ["feed.configure", h] =>
-    match parseInt? h with
-    | some h => ({ st with b := st.b.configure h, bk := [] }, [])
-    | none => (st, [s!"BAD\t{seq}\tconfigure"])
+  | ["feed.genesis", flag, bks] =>
+    match parseBool? flag, parseBooks bks with
+    | some flag, some bk =>
+      let c := Chain.genesis flag bk
+      ({ st with b := c.b, bk := c.bk, clean := false, ghost := [], fresh := [] }, [])
+    | _, _ => (st, [s!"BAD\t{seq}\tgenesis"])
+  | ["feed.configure", h, n, a, _script, bs, bks] =>
+    match parseInt? h, parseNat? n, parseInt? a with
+    | some h, some n, some a =>
+      match chainStep { cfg := ⟨st.N, st.acc⟩, b := st.b, bk := st.bk } (.configure ⟨n, a⟩ h) with
+      | .error _ => (st, [s!"BAD\t{seq}\tconfigure: model panics"])
+      | .ok c =>
+        match parseBand c.b bs, parseBooks bks with
+        | some realB, some realBk =>
+          let d := (if showBand c.b = showBand realB then [] else [s!"DIFF\t{seq}\tconfigure band model={showBand c.b}\timpl={showBand realB}"]) ++
+            (if showBooks c.bk = showBooks realBk then [] else [s!"DIFF\t{seq}\tconfigure books model={showBooks c.bk}\timpl={showBooks realBk}"])
+          -- the property's premise "fixed window size": a (re)configuration leaves NO stored window behind
+          let mon := if realBk.isEmpty then [] else
+            [s!"MON\t{seq}\treconfigure_clears\t{realBk.length} windows survive the proposal: {showBooks realBk}"]
+          ({ st with N := n, acc := a, b := realB, bk := realBk, clean := true, ghost := [], fresh := [] }, d ++ mon)
+        | _, _ => (st, [s!"BAD\t{seq}\tconfigure state"])
+    | _, _, _ => (st, [s!"BAD\t{seq}\tconfigure"])
+  | ["feed.assetchange", rq, bs, as] =>
+    match parseBool? rq, parseAssets as with
+    | some rq, some assets =>
+      let mb := st.b.assetChange rq
+      match parseBand mb bs with
+      | some realB =>
+        let d := if showBand mb = showBand realB then [] else [s!"DIFF\t{seq}\tassetchange band model={showBand mb}\timpl={showBand realB}"]
+        ({ st with b := realB, assets := assets }, d)
+      | none => (st, [s!"BAD\t{seq}\tassetchange band"])
+    | _, _ => (st, [s!"BAD\t{seq}\tassetchange"])
+  | ["feed.noise", kind, bs, stored, bks] =>
+    -- a malformed / foreign packet or proposal went through the real handlers: nothing may move
+    match parseBand st.b bs, parseBooks bks with
+    | some realB, some realBk =>
+      let d := (if showBand st.b = showBand realB then [] else [s!"DIFF\t{seq}\tnoise {kind} moved the band state model={showBand st.b}\timpl={showBand realB}"]) ++
+        (if stored = "false" then [] else [s!"DIFF\t{seq}\tnoise {kind} stored a result"]) ++
+        (if showBooks st.bk = showBooks realBk then [] else [s!"DIFF\t{seq}\tnoise {kind} moved the windows"])
+      (st, d)
+    | _, _ => (st, [s!"BAD\t{seq}\tnoise"])
   | ["feed.ack", id] =>
     match parseInt? id with
     | some id => ({ st with b := st.b.ack id }, [])
@@ -141,7 +231,7 @@ def handle (st : St) (seq : String) (f : List String) : St × List String :=
         let d := match marketBegin st.b st.N st.acc h st.assets st.bk with
           | .error _ => []
           | .ok _ => [s!"DIFF\t{seq}\tmarket model=ok\timpl=panic"]
-        (st, d ++ [s!"MON\t{seq}\tno_panic"])
+        (st, d ++ [s!"MON\t{seq}\tno_panic\tmarket begin-blocker panicked at height {h}"])
       else
       match parseBand st.b bs, parseBooks bks with
       | some realB, some realBk =>
@@ -150,8 +240,10 @@ def handle (st : St) (seq : String) (f : List String) : St × List String :=
           | .ok (mb, mbk) =>
             (if showBand mb = showBand realB then [] else [s!"DIFF\t{seq}\tmarket band model={showBand mb}\timpl={showBand realB}"]) ++
             (if showBooks mbk = showBooks realBk then [] else [s!"DIFF\t{seq}\tmarket books model={showBooks mbk}\timpl={showBooks realBk}"])
-        let mons := (marketMonitors st h st.b st.bk realBk).map fun m => s!"MON\t{seq}\t{m}"
-        ({ st with b := realB, bk := realBk }, d ++ mons)
+        let ids := (allIds st (st.bk ++ realBk)).eraseDups
+        let (ghost, fresh) := ghostStep st h ids
+        let mons := ((marketMonitors st h st.b st.bk realBk) ++ historyMonitors st ghost fresh realBk ids).map fun m => s!"MON\t{seq}\t{m}"
+        ({ st with b := realB, bk := realBk, ghost := ghost, fresh := fresh }, d ++ mons)
       | _, _ => (st, [s!"BAD\t{seq}\tmarket state"])
   | ["feed.val", id, outcome] =>
     match parseNat? id with
@@ -162,6 +254,21 @@ def handle (st : St) (seq : String) (f : List String) : St × List String :=
         | some r => if outcome = "ok" && !r.active then [s!"MON\t{seq}\tfail_closed"] else []
         | none => if outcome = "ok" then [s!"MON\t{seq}\tfail_closed"] else []
       if m = outcome then (st, mon) else (st, [s!"DIFF\t{seq}\tval model={m}\timpl={outcome}"] ++ mon)
+  | ["feed.reader", name, id, listed, outcome] =>
+    match readerOf name, parseNat? id, parseBool? listed with
+    | some rd, some id, some listed =>
+      let w := st.bk.get id
+      let m := if rd.answers w listed then "ok" else "err"
+      let d := if m = outcome then [] else [s!"DIFF\t{seq}\treader {name} asset {id} model={m}\timpl={outcome}"]
+      let inactive := !(abs w).active
+      let mon :=
+        if outcome = "panic" then [s!"MON\t{seq}\tno_panic\treader {name} panicked"]
+        else if outcome = "ok" && inactive then
+          (if rd.strict then [s!"MON\t{seq}\tfail_closed\treader {name} values asset {id} although its price is inactive"]
+           else [s!"MON\t{seq}\tstale_reader_values_inactive\treader {name} values asset {id} at its last published average although its price is inactive"])
+        else []
+      (st, d ++ mon)
+    | _, _, _ => (st, [s!"BAD\t{seq}\treader"])
   | _ => (st, [s!"BAD\t{seq}\tunknown feed line"])
 
 end Comdex.Drv.Feed
